@@ -28,6 +28,42 @@ static ssize_t nextChar(const struct iovec *curr, const struct iovec *cont, size
 	
 	return part;
 }
+static ssize_t nextSpace(const struct iovec *curr, const struct iovec *cont, size_t clen)
+{
+	static const char space[] = "\t \n\r\v", escape[] = "'\"";
+	size_t pos = 0;
+	int match = 0, prev = ' ';
+	
+	/* escape state is kept over part boundaries */
+	while (1) {
+		const uint8_t *base = curr->iov_base;
+		size_t i, len = curr->iov_len;
+		
+		for (i = 0; i < len; ++i) {
+			int c = base[i];
+			if (match) {
+				/* unset if current is valid end */
+				if (c == match && prev != '\\') {
+					match = 0;
+				}
+			}
+			/* mark if current is in delimiters */
+			else if (memchr(escape, c, sizeof(escape) - 1)) {
+				match = c;
+				continue;
+			}
+			else if (memchr(space, c, sizeof(space) - 1)) {
+				return pos + i;
+			}
+			prev = c;
+		}
+		if (!clen--) {
+			return -2;
+		}
+		pos += len;
+		curr = cont++;
+	}
+}
 static int notSpace(int c, void *con)
 {
 	(void) con;
@@ -91,11 +127,8 @@ extern ssize_t mpt_message_argv(MPT_STRUCT(message) *msg, int sep)
 	}
 	/* find space character not in escapes */
 	if (!isgraph(sep)) {
-		if ((part = mpt_memtok(&curr, 1, "\t \n\r\v", NULL, "'\"")) >= 0) {
+		if ((part = nextSpace(&curr, cont, clen)) >= 0) {
 			return part;
-		}
-		if (clen && (part = mpt_memtok(cont, clen, "\t \n\r\v", NULL, "'\"")) >= 0) {
-			return curr.iov_len + part;
 		}
 		sep = 0;
 	}
